@@ -21,7 +21,8 @@ Definition d_label (v : val) : label :=
   | L [I 4] => LRecvCancel
   | L [I 5; n] => LSend (dN n)
   | L [I 6] => LCloseCall
-  | _ => LCloseRun
+  | L [I 7] => LCloseRun
+  | _ => LCloseBad
   end.
 
 Definition d_res (v : val) : res :=
@@ -32,7 +33,8 @@ Definition d_res (v : val) : res :=
   | L [I 2; c] => EDisc (Some (dZ c))
   | L [I 3] => ECancelled
   | L [I 4] => EAssert
-  | _ => EInvalidState
+  | L [I 5] => EInvalidState
+  | _ => EValueErr
   end.
 
 Definition d_opk (v : val) : opk :=
@@ -56,6 +58,7 @@ Definition v_res (r : res) : val :=
   | ECancelled => L [I 3]
   | EAssert => L [I 4]
   | EInvalidState => L [I 5]
+  | EValueErr => L [I 6]
   end.
 
 Definition v_opk (k : opk) : val := I (match k with KRecv => 0 | KSend => 1 | KClose => 2 end).
